@@ -39,8 +39,12 @@ MANIFEST = {
             "the register machine (conv/batch-norm check in_channels, cat adds, + needs equal counts; validated hook by hook), "
             "forward hooks as the observation of the real block structure. 'Finite values' is a run-time check on random inputs, "
             "not a theorem. Conv2dGRU and RIMInit/RecurrentInit channel programs are checked per instance (bridge: the program read "
-            "from forward runs, ends with out_channels, leaves no register), not for all widths; MultiDomainUnet2d has a spatial "
-            "program only. The glue of the unrolled networks between the denoiser calls (FFT, coil sums, buffer concatenations) is "
+            "from forward runs, ends with out_channels, leaves no register), not for all widths. MultiDomainUnet2d: channel program mdUnetC (each MultiDomainConv2d = k-space conv and image conv "
+            "with out_channels // 2 filters on the same input, concatenated) read from the AST and bridged for 4 width/depth "
+            "combinations, mdunet_full_shape / mdunet_channels proved for ALL in/out channels, depths and every EVEN num_filters "
+            "(odd num_filters fail: mdunet_odd_filters_fail, instances); the FFT idiom cat([op(t) for t in split(x.permute(0,2,3,1), 2, -1)], "
+            "-1).permute(0,3,1,2) is recognised syntactically as channel preserving (operator assumed shape preserving; that it needs an "
+            "even in_channels is not modelled). The glue of the unrolled networks between the denoiser calls (FFT, coil sums, buffer concatenations) is "
             "covered through the block schedule, the permute-pair table and the full shapes of every denoiser call, not line by line. "
             "Two known findings (MRIVarSplitNet normunet variants).",
     "technique": "Lean 4 proof (structural induction over shape programs, Hoare-style calculus for the channel register machine, "
@@ -50,7 +54,8 @@ MANIFEST = {
 TRUSTED = [
     "Lean 4.33 kernel; axioms ⊆ {propext, Classical.choice, Quot.sound}",
     "harness/translate recipes c17 (pad/unpad/crop/pow2/IWT/GRU kernels, F.pad order and mode tables, pooling literals), "
-    "c17_forward (spatial programs), c17_channels (channel programs: token tracking of torch.cat / + operands), c17_sched "
+    "c17_forward (spatial programs), c17_channels (channel programs: token tracking of torch.cat / + operands; the multi-domain "
+    "FFT-per-complex-pair idiom is matched on the AST and treated as channel preserving), c17_sched "
     "(block schedules, argument/result permutes)",
     "torch layer shape laws (Conv/ConvTranspose/AvgPool/PixelShuffle/reflect-pad limits) as encoded in Model/Shapes.lean — "
     "compared with real torch layers on random hyper-parameters every run",
@@ -231,6 +236,9 @@ def _full_spec(e, m, n):
         if fam.startswith("Norm"):
             return op + "F", [groups[0], groups[1], [m.norm_groups], ch], hooks
         return op + "F", [groups[0], groups[1], ch], hooks
+    if fam == "MultiDomainUnet2d":
+        first = m.down_sample_layers[0].layers[0]
+        return "mdunetF", [groups[0], groups[1], [n, first.image_conv.in_channels, m.up_conv[-1][-1].out_channels, m.num_filters]], hooks
     if fam == "MWCNN":
         cs = convs_of(m.down[0])
         return "mwcnnF", [groups[0], groups[1], [n, cs[0].in_channels, cs[0].out_channels, has_bn(m)]], hooks
